@@ -2,10 +2,11 @@
 # usage: extract.sh <src_dir> <out_dir> [features]   -- runs pgfacts over <src_dir> (a cargo package)
 set -u
 SRC="$1"; OUT="$2"; FEAT="${3:-}"
-DRV=/verif/pgfacts/target/release/pgfacts
+BASE="$(cd "$(dirname "$0")/.." && pwd)"
+DRV="$BASE/pgfacts/target/release/pgfacts"
 [ -x "$DRV" ] || { echo "pgfacts driver not built (run setup_cmd)" >&2; exit 2; }
 mkdir -p "$OUT"
-TGT=$(mktemp -d /verif/.work/tgt.XXXXXX)
+TGT=$(mktemp -d "$BASE/.work/tgt.XXXXXX")
 trap 'rm -rf "$TGT"' EXIT
 SYSROOT=$(rustc +nightly --print sysroot)
 FARGS=()
@@ -20,5 +21,14 @@ CARGO_NET_OFFLINE=true \
 CARGO_TARGET_DIR="$TGT" \
 cargo +nightly check --offline --lib "${FARGS[@]}" > "$OUT/cargo.log" 2>&1
 rc=$?
+if [ $rc -ne 0 ] && grep -q "panicked at" "$OUT/cargo.log"; then
+  # the extractor itself crashed (compiler-internal panic in an optional fact): retry without the optional facts
+  rm -rf "$TGT"; TGT=$(mktemp -d "$BASE/.work/tgt.XXXXXX")
+  cp "$OUT/cargo.log" "$OUT/cargo.first.log"
+  LD_LIBRARY_PATH="$SYSROOT/lib" RUSTFLAGS="-Zmir-opt-level=0 -Awarnings" RUSTC_WRAPPER="$DRV" PGFACTS_OUT="$OUT" PGFACTS_SAFE=1 \
+  PGFACTS_CRATES="${PGFACTS_CRATES:-proguard,watto,leb128}" CARGO_NET_OFFLINE=true CARGO_TARGET_DIR="$TGT" \
+  cargo +nightly check --offline --lib "${FARGS[@]}" > "$OUT/cargo.log" 2>&1
+  rc=$?
+fi
 if [ $rc -ne 0 ]; then tail -40 "$OUT/cargo.log" >&2; exit 2; fi
 exit 0
